@@ -1283,19 +1283,28 @@ def rule_nfa_mode(rep, crate):
 
 def rule_late_accept_removal(rep, crate, rid_name='M-C02g'):
     """A late accept may be dropped only if EVERY predecessor already records the same leaf early."""
-    rid = rep.rule(rid_name, 'late accepts are only removed when redundant: in Graph::new every store of None into state_type.accept lies on the Some(leaf) edge of the state\'s own accept and is guarded by a predicate that is universal over the state\'s predecessors (`backward`) and compares each predecessor\'s `early` with Some(leaf) (accepted forms: all(|b| early == Some(leaf)) on its true edge, any(|b| early != Some(leaf)) on its false edge)', floor=1)
-    fn = crate.fns.get('graph::Graph::new')
-    if not rep.anchor(rid, 'fn Graph::new', fn is not None):
+    rid = rep.rule(rid_name, 'late accepts are only removed when redundant: every store of None into state_type.accept in Graph::new (or in a private method of Graph it was moved to) lies on the Some(leaf) edge of the state\'s own accept and is guarded by a predicate that is universal over the state\'s predecessors (`backward`) and compares each predecessor\'s `early` with Some(leaf) (accepted forms: all(|b| early == Some(leaf)) on its true edge, any(|b| early != Some(leaf)) on its false edge)', floor=1)
+    g = crate.fns.get('graph::Graph::new')
+    if not rep.anchor(rid, 'fn Graph::new', g is not None):
         return
     from mirlib import stores_to_field, controlling_switches, bool_edges
-    stores = []
-    for bi, si, st in stores_to_field(fn, 'accept'):
-        rhs = st['rhs']
-        d = desc(fn, rhs['a']) if rhs['rv'] == 'use' else ''
-        if 'Option::None' in d:
-            stores.append((bi, si, st))
-    if not rep.anchor(rid, 'store of None into state_type.accept in Graph::new', bool(stores)):
+    hosts = [g] + [f for n, f in sorted(crate.fns.items()) if re.match(r'^graph::Graph::[a-z_0-9]+$', n) and f is not g and f.kind in ('AssocFn', 'Fn')]
+    found = []
+    for h in hosts:
+        for bi, si, st in stores_to_field(h, 'accept'):
+            rhs = st['rhs']
+            d = desc(h, rhs['a']) if rhs['rv'] == 'use' else ''
+            if 'Option::None' in d:
+                found.append((h, bi, si, st))
+    if not rep.anchor(rid, 'store of None into state_type.accept in Graph::new or a Graph method', bool(found)):
         return
+    for fn in sorted({h for h, _b, _s, _st in found}, key=lambda f: f.name):
+        stores = [(bi, si, st) for h, bi, si, st in found if h is fn]
+        _late_removal_in(rep, rid, crate, fn, stores)
+
+
+def _late_removal_in(rep, rid, crate, fn, stores):
+    from mirlib import controlling_switches
     for bi, si, st in stores:
         rep.inst(rid, 'late-removal:bb%d' % bi)
         guard = None
